@@ -569,6 +569,66 @@ func rulesC09(w *World, o *Out) {
 	o.Rule("C09.R2", "in every module function reachable from those methods without crossing a frame that recovers (defer-recover, whoops.Try): explicit panics, panicking SDK APIs (Int.Int64/Uint64, MustFloat64, Quo by a possibly-zero divisor, Must*/whoops.Assert), single-result type assertions, integer division by a non-constant and parallel-slice indexing are guarded, auto-accepted (codec round-trips, constant arguments) or individually triaged")
 	o.Rule("C09.R3", "the recovering frames exist: skyway EndBlocker / AppModule.EndBlock establish recover before any other call")
 
+	o.Rule("C09.R4", "decimal range: the relayer fee multiplicator -- the one sender-controlled decimal that end-block arithmetic multiplies, subtracts and divides (relayer ranking, fee calculation) -- is refused where it is submitted unless it is set, non-negative and at most MaxUint64, and the fee store has no other runtime writer; LegacyDec arithmetic panics outside +-2^256")
+	{
+		tk := "x/treasury/keeper"
+		h := w.MustFunc(o, tk, "msgServer", "UpsertRelayerFee")
+		if h != nil {
+			o.Analysed(w.FuncKey(h))
+			req := h.Params[len(h.Params)-1]
+			writes := FindCalls(h, false, isCallee(tk, "Keeper", "SetRelayerFee"))
+			o.Count("C09.R4 fee writes in UpsertRelayerFee", len(writes), 1)
+			for _, pred := range []string{"IsNil", "IsNegative", "GT"} {
+				refused := false
+				for _, b := range unitBlocks(h) {
+					if len(b.Instrs) == 0 {
+						continue
+					}
+					iff, isIf := b.Instrs[len(b.Instrs)-1].(*ssa.If)
+					if !isIf {
+						continue
+					}
+					c, isC := canon(iff.Cond).(*ssa.Call)
+					if !isC {
+						continue
+					}
+					cal, okc := CalleeOf(c.Common())
+					if !okc || cal.Name != pred || cal.Recv != "LegacyDec" || len(c.Call.Args) == 0 {
+						continue
+					}
+					onFee := false
+					x, _ := fl09(w).Influence(c.Call.Args[0])
+					for ap := range x {
+						if ap.Root == ssa.Value(req) && strings.HasSuffix(ap.Path, ".Multiplicator") {
+							onFee = true
+						}
+					}
+					if !onFee {
+						continue
+					}
+					if pred == "GT" {
+						// the bound is a constant no larger than MaxUint64
+						if !decBoundAtMostMaxUint64(c.Call.Args[1]) {
+							continue
+						}
+					}
+					if b.Parent() == h && ReachFromTop(h, b.Succs[0], siteSet(writes), nil) == nil {
+						refused = true
+					}
+				}
+				o.Check("C09.R4", "UpsertRelayerFee|a multiplicator with "+pred+" is refused before the write", refused, w.Pos(h.Pos()),
+					"every submitted fee's Multiplicator."+pred+"(..) == true must lead to an error without reaching SetRelayerFee; an unset, negative or astronomically large multiplicator makes scoreValue / MulInt overflow the decimal range inside the evm, valset and consensus end blockers")
+			}
+		}
+		gen := w.Reach(entryFns(w.EntriesOf("genesis")), nil)
+		rt := w.Reach(entryFns(w.EntriesOf("msg", "abci", "ante", "gov", "wasm", "hook")), nil)
+		for _, s := range w.CallersOf(isCallee(tk, "Keeper", "SetRelayerFee")) {
+			tf := TopFunc(s.Fn)
+			ok := tf == h || (gen[tf] != nil && rt[tf] == nil) || rt[tf] == nil
+			o.Check("C09.R4", "SetRelayerFee called from "+w.FuncKey(tf), ok, w.Pos(s.Instr.Pos()), "relayer fees may be written at run time only by the validating handler")
+		}
+	}
+
 	abci := w.EntriesOf("abci")
 	o.Count("C09 ABCI methods", len(abci), 18)
 	// ---- R1 ----
@@ -925,6 +985,60 @@ func guardedAgainstZeroInt(in ssa.Instruction, recv ssa.Value) bool {
 				}
 			}
 		}
+	}
+	return false
+}
+
+var fl09memo *Flow
+
+func fl09(w *World) *Flow {
+	if fl09memo == nil || fl09memo.w != w {
+		fl09memo = NewFlow(w)
+	}
+	return fl09memo
+}
+
+// decBoundAtMostMaxUint64: v is (a load of a package variable initialised to) a decimal built from an
+// unsigned 64-bit constant, i.e. a bound <= MaxUint64.
+func decBoundAtMostMaxUint64(v ssa.Value) bool {
+	v = canon(v)
+	var src ssa.Value = v
+	if u, ok := v.(*ssa.UnOp); ok {
+		if g, isG := u.X.(*ssa.Global); isG {
+			// the single store to the global in the package initialiser
+			src = nil
+			if init := g.Pkg.Func("init"); init != nil {
+				for _, b := range init.Blocks {
+					for _, in := range b.Instrs {
+						if st, isSt := in.(*ssa.Store); isSt && st.Addr == ssa.Value(g) {
+							src = st.Val
+						}
+					}
+				}
+			}
+		}
+	}
+	if src == nil {
+		return false
+	}
+	// LegacyNewDecFromInt(NewIntFromUint64(const)) / LegacyNewDec(const) / LegacyNewDecFromInt(NewInt(const))
+	for i := 0; i < 4; i++ {
+		c, ok := canon(src).(*ssa.Call)
+		if !ok || len(c.Call.Args) == 0 {
+			return false
+		}
+		cal, okc := CalleeOf(c.Common())
+		if !okc || cal.Pkg != "cosmossdk.io/math" {
+			return false
+		}
+		if k, isK := c.Call.Args[0].(*ssa.Const); isK && k.Value != nil {
+			switch cal.Name {
+			case "NewIntFromUint64", "LegacyNewDec", "NewInt", "LegacyNewDecFromInt64":
+				return true // a 64-bit constant
+			}
+			return false
+		}
+		src = c.Call.Args[0]
 	}
 	return false
 }
